@@ -35,6 +35,7 @@ type Ctx struct {
 	ev  Evidence
 	log *os.File
 
+	mech        bool // record and validate the compressor's mechanism events (hooks) for level 1/2 flate cases
 	reusePrefix bool // writer histories: a third of the cases run on a Writer that was used before and Reset
 }
 
